@@ -83,6 +83,11 @@ func (k *KVStore) isCompactionOK(t *table.Table) bool {
 
 func (k *KVStore) Compaction() (bool, error) {
 	for _, t := range k.tables {
+		if t.State() == table.ReadWriteState {
+			// New entries are still inserted to this table. evictTable would move its
+			// entries to itself and delete them afterwards.
+			continue
+		}
 		if k.isCompactionOK(t) {
 			err := k.evictTable(t)
 			if err != nil {
